@@ -539,6 +539,10 @@ def r5_selection(ctx):
             if isinstance(val, ast.Name) or any(isinstance(n_, ast.Name) and ('@' in n_.id or '#' in n_.id) for n_ in ast.walk(val)):
                 # the result is accumulated in place (a loop the set algebra does not follow): unknown, not wrong
                 raise AnalysisError(f'{at}: valid builds its result in place (`{src(val)[:60]}`): the set-algebra rule does not follow it')
+            if _set_terms(val, {}) is None:
+                # neither a difference nor a union the set algebra recognises (another algorithm - a walk with inherited flags, a
+                # parent table): unknown, not wrong.  A recognised union WITHOUT the difference is reported below.
+                raise AnalysisError(f'{at}: valid returns `{src(val)[:80]}`: not a set expression the rule follows')
             ctx.violation('R5', at, valid.qualname, 'valid-shape',
                           f'valid returns `{src(val)[:120]}`, expected closure(include) - closure(exclude)')
             continue
